@@ -300,6 +300,9 @@ fn op_kind(o: &Op) -> u8 {
         Op::Coalesce { qos, .. } => 172 + qos,
         Op::SendUnowned { kind } => 176 + kind,
         Op::ConnackAgain { .. } => 181,
+        Op::SubFailContinue { unsub } => 182 + *unsub as u8,
+        Op::AppAckBig { .. } => 184,
+        Op::AppAckSoft { .. } => 185,
         Op::Advance { .. } => 121,
         Op::Close { partial } => 122 + (*partial != 0) as u8,
         Op::Crash => 124,
@@ -707,6 +710,20 @@ fn gen_c09(rng: &mut Rng, tier: Tier, run: u64) -> (Case, Outcome) {
     (Case::Chunk { cfg, ops, burst: bi, cuts: vec![] }, o)
 }
 
+/// protocol level of a raw CONNECT frame (None if the bytes are not one)
+fn connect_level(b: &[u8]) -> Option<u8> {
+    if b.first() != Some(&0x10) {
+        return None;
+    }
+    let mut i = 1;
+    while i < b.len() && i <= 4 && b[i] & 0x80 != 0 {
+        i += 1;
+    }
+    i += 1;
+    let n = ((*b.get(i)? as usize) << 8) | *b.get(i + 1)? as usize;
+    b.get(i + 2 + n).copied()
+}
+
 fn fork_outcome(kind: ForkKind, cfg: &Cfg, ops: &[Op], cont: &[Op], mangle: ExportMangle) -> Outcome {
     let (cfg_a, cfg_b, head_a, head_b): (Cfg, Cfg, Vec<Op>, Vec<Op>) = match kind {
         ForkKind::Crash => {
@@ -729,6 +746,17 @@ fn fork_outcome(kind: ForkKind, cfg: &Cfg, ops: &[Op], cont: &[Op], mangle: Expo
             (cfg.clone(), cfg.clone(), ha, vec![])
         }
         ForkKind::Version => {
+            // "adopts v3.1.1 or v5.0 from the first CONNECT ... and from then on behaves exactly
+            // like a server created with that version": the script starts with a CONNECT of the
+            // version the fixed twin was created with (a shrunken script that lost it compares nothing)
+            let starts_with_connect = match cont.first() {
+                Some(Op::Connect { .. }) => true,
+                Some(Op::PeerRaw { bytes }) => connect_level(bytes) == Some(cfg.wire_v),
+                _ => false,
+            };
+            if !starts_with_connect {
+                return Outcome::default();
+            }
             let mut ca = cfg.clone();
             ca.ver = Ver::Undet;
             let mut cb = cfg.clone();
